@@ -480,9 +480,70 @@ def gen_pairs(tier):
             yield {"kind": "history", "seeds": DEFAULT_SEEDS, "steps": [[a, 1, 0], [b2, 99, 98]]}
 
 
+def s_geom():
+    return st.fixed_dictionaries({"kind": st.just("geom"), "p": st.lists(gens.fl(-3, 3), min_size=3, max_size=3), "d1": gens.direction3(), "d2": gens.direction3(),
+                                  "len": st.sampled_from([1.0, 2.0, 0.5, 3.0]), "len2": st.sampled_from([None, None, 1.0, 4.0]),
+                                  "n": gens.direction3(), "nlen": st.sampled_from([1.0, 2.0, 0.25]), "x": st.lists(gens.fl(-3, 3), min_size=3, max_size=3),
+                                  "T": gens.pose3(t_hi=1)})
+
+
+def gen_geom(tier):
+    for ln in (1.0, 2.0, 0.5):
+        for ln2 in (None, 1.0, 4.0):
+            for nl in (1.0, 2.0):
+                yield {"kind": "geom", "p": [1.0, 2.0, 3.0], "d1": [1.0, 0.0, 0.0], "d2": [0.0, 1.0, 0.0], "len": ln, "len2": ln2, "n": [0.0, 0.6, 0.8], "nlen": nl,
+                       "x": [0.5, -1.0, 2.0], "T": {"rot": {"axis": [0.3, -0.5, 0.8], "angle": 0.7, "via": "rod"}, "t": [0.5, 1.0, -1.0]}}
+                yield {"kind": "geom", "p": [-2.0, 0.5, 1.0], "d1": [0.6, 0.0, 0.8], "d2": [0.0, -1.0, 0.0], "len": ln, "len2": ln2, "n": [1.0, 0.0, 0.0], "nlen": nl,
+                       "x": [1.5, 1.0, -2.0], "T": {"rot": {"axis": [1.0, 0.0, 0.0], "angle": 1.2, "via": "rod"}, "t": [0.0, 2.0, 1.0]}}
+
+
+def _geom(case):
+    """line / plane operands: two lines that meet in a point (direction vectors of equal or different, unit or non-unit
+    length), a Plane object with a non-unit normal; every Plucker method leaves both lines, the plane and the arrays unchanged"""
+    c = Checker("geom")
+    p = np.array(case["p"], dtype=float)
+    u1, u2 = refs.unit(case["d1"]), refs.unit(case["d2"])
+    if float(np.linalg.norm(np.cross(u1, u2))) < 0.2:
+        u2 = refs.unit(np.cross(u1, [0.3, 0.5, 0.8]))
+    l1, l2 = case["len"], case["len2"] or case["len"]
+    nrm = refs.unit(case["n"])
+    if abs(float(np.dot(nrm, u1))) < 0.2:
+        nrm = refs.unit(nrm + u1)
+    try:
+        L1 = L.Plucker.PointDir(list(p), list(u1 * l1))
+        L2 = L.Plucker.PointDir(list(p), list(u2 * l2))
+        PL = L.Plane.PN(list(p + np.array([0.5, 0.25, -1.0])), list(nrm * case["nlen"]))
+        X = L.SE3(refs.pose3_of(case["T"]), check=False)
+    except Exception as e:  # noqa
+        c.fail("setup", "constructing the operands raised %r" % e)
+        return c.out
+    xv = np.array(case["x"], dtype=float)
+    coeff = np.r_[nrm * case["nlen"], -1.5]
+    operands = {"line1": L1, "line2": L2, "plane": PL, "x": xv, "coeff": coeff, "pose": X}
+    ops = [("intersects", lambda: L1.intersects(L2)), ("^", lambda: L1 ^ L2), ("|", lambda: L1 | L2), ("==", lambda: L1 == L2), ("!=", lambda: L1 != L2),
+           ("*", lambda: L1 * L2), ("distance", lambda: L1.distance(L2)), ("commonperp", lambda: L1.commonperp(L2)), ("isparallel", lambda: L1.isparallel(L2)),
+           ("closest", lambda: L1.closest(xv)), ("contains", lambda: L1.contains(xv)), ("point", lambda: L1.point(0.7)),
+           ("intersect_plane(Plane)", lambda: L1.intersect_plane(PL)), ("intersect_plane(array)", lambda: L1.intersect_plane(coeff)),
+           ("Plane.contains", lambda: PL.contains(xv)), ("SE3*line", lambda: X * L1), ("pp", lambda: L1.pp), ("uw", lambda: L1.uw), ("ppd", lambda: L1.ppd),
+           ("skew", lambda: L1.skew), ("str", lambda: str(L1)), ("str(Plane)", lambda: str(PL)), ("intersect_volume", lambda: L1.intersect_volume(np.array([-5.0, 5, -5, 5, -5, 5])))]
+    for name, f in ops:
+        before = {k: snap(v) for k, v in operands.items()}
+        try:
+            f()
+        except Exception:  # noqa  (a rejected call must not modify anything either)
+            pass
+        for k, v in operands.items():
+            if snap(v) != before[k]:
+                c.fail("%s/mutated_%s" % (name, k), "Plucker.%s changed its operand '%s' (%s)" % (name, k, type(v).__name__), op=name, operand=k)
+                return c.out
+    return c.out
+
+
 def check_case(case):
     if case.get("kind") in ("hist", "aug", "variant"):
         return probes.run(case, PROPERTY_ID)
+    if case["kind"] == "geom":
+        return _geom(case)
     if case["kind"] == "history":
         return _history(case)
     if case["kind"] == "table":
@@ -675,6 +736,9 @@ def classify(case):
         lab["nontrivial"] = bool(lab["result_reused"] or lab["augmented"] or lab["multi_receiver"])
     elif k == "table":
         lab["nontrivial"] = case["form"] != "list"
+    elif k == "geom":
+        lab["nontrivial"] = case["len"] != 1.0 or case["nlen"] != 1.0
+        lab["equal_nonunit_directions"] = case["len"] != 1.0 and case["len2"] in (None, case["len"])
     else:
         lab["nontrivial"] = case["multi"]
     return lab
@@ -691,6 +755,8 @@ def subchecks(tier):
         Sub("pairs", gen=gen_pairs, shards=(16, 16)),
         Sub("table", gen=gen_table, shards=(2, 4)),
         Sub("reflect", gen=gen_reflect, shards=(2, 4)),
+        Sub("geometry_cells", gen=gen_geom, shards=(2, 4)),
+        Sub("geometry", strategy=s_geom(), n=(60, 1500), shards=(2, 8)),
         Sub("histories", strategy=s_history(12 if tier == "quick" else 40), n=(150, 3000), shards=(8, 16)),
         Sub("machine", machine=machine_spec, n=(30, 600), shards=(8, 16), steps=(10, 30)),
         *probes.subs(PROPERTY_ID),
